@@ -603,6 +603,24 @@ def c07_oracle(full, io, b):
                     out.append({"what": f"split_url({src!r}) = {got!r}; RFC 3986 Appendix B gives {exp!r}", "class": "appendix-b", "n": n, "input": repr(src)})
             elif r != "!V":
                 out.append({"what": f"split_url({src!r}) raised {r}", "class": "split-error-kind", "n": n, "input": repr(src)})
+    for n, o in enumerate(full):
+        f = o.split("\t")
+        if f[0] == "sn" and not io[n].startswith("!"):
+            auth = dec(f[1])
+            got = [None if x == "~" else dec(x) for x in io[n].split(" ")[:3]]
+            if "@" in auth:
+                ui, _, hp = auth.rpartition("@")
+                eu, sep, epw = ui.partition(":")
+                exp_user, exp_pw = (eu or None), (epw if sep else None)
+            else:
+                hp, exp_user, exp_pw = auth, None, None
+            if "[" in hp:
+                exp_host = hp.partition("[")[2].partition("]")[0] or None
+            else:
+                exp_host = hp.partition(":")[0] or None
+            if got != [exp_user, exp_pw, exp_host]:
+                out.append({"what": f"split_netloc({auth!r}) = user/password/host {got!r}; the authority splits into {[exp_user, exp_pw, exp_host]!r} (last '@', first ':' of the userinfo, host up to ':' or inside the brackets of the host part)",
+                            "class": "authority-split", "n": n, "input": repr(auth)})
     for h, n in enumerate(v.cr):
         f = full[n].split("\t")
         if f[0] != "new" or f[2] != "e" or not v.alive(h):
@@ -642,6 +660,13 @@ def c07_streams(rng, tier, budget):
         for s in urlgen.delimiter_strings(3):
             st.add("su\t" + enc(pre + s))
     yield "delimiter-strings", st
+    st3 = Stream()
+    for s in gens.strings_over(["[", "]", "@", ":", "a", "1", ".", "v"], 5 if tier == "quick" else 6):
+        st3.add("sn\t" + enc(s))
+    for s in gens.strings_over(["[", "]", "@", ":", "a", "1"], 4):
+        st3.obs_all(st3.new("//" + s, encoded=True), ["raw_user", "raw_password", "raw_host", "explicit_port", "val"])
+        st3.obs_all(st3.new("x://" + s + "/p"), ["raw_user", "raw_password", "raw_host", "explicit_port", "val", "str"])
+    yield "authority-strings", st3
     st2 = Stream()
     n = int((500 if tier == "quick" else 8000) * budget)
     for _ in range(n):
